@@ -278,6 +278,16 @@ fn main() {
     }
     ctx.replayer("f80-case", |v| run_case(&serde_json::from_value::<Case>(v.clone()).expect("case")));
     ctx.begin();
+    {
+        use rlib_num_traits::ZeroOne;
+        let z = lib_bytes(<f80 as ZeroOne>::ZERO);
+        let o = lib_bytes(<f80 as ZeroOne>::ONE);
+        let ok = z == lib_bytes(f80::from(0.0)) && o == lib_bytes(f80::from(1.0)) && lib_bytes(f80::default()) == z;
+        if !ok {
+            let v = Violation::new("constants", format!("f80::ZERO / ONE / default() are not the encodings of 0.0 and 1.0: {} {}", show(&z), show(&o)));
+            ctx.violation("constants", "f80-case", &Case::Pair { a: 0, b: 0x3ff0000000000000 }, &v);
+        }
+    }
     let set = boundary_set();
     let n = set.len();
     let s2 = set.clone();
